@@ -696,6 +696,61 @@ fn run(ctx: &mut Ctx) {
             ctx.state(hash_of(&("fromiter", &l)));
         }
     }
+    // decoding: every list of <= 3 ranges for one client as it may arrive from a foreign peer (unsorted,
+    // overlapping, adjacent, empty ranges included), in the v1 wire form; the decoded value must be the
+    // union as a canonical set, and encode again (v1, v2) to something that decodes to the same set
+    if ctx.shard == 3 % ctx.nshards {
+        let n = n_pair;
+        let mut ranges: Vec<(u32, u32)> = Vec::new();
+        for a in 0..=n {
+            for len in 0..=2u32 {
+                ranges.push((a, a + len));
+            }
+        }
+        let mut lists: Vec<Vec<(u32, u32)>> = Vec::new();
+        for r in &ranges {
+            lists.push(vec![*r]);
+            for q in &ranges {
+                lists.push(vec![*r, *q]);
+                for p in &ranges {
+                    lists.push(vec![*r, *q, *p]);
+                }
+            }
+        }
+        for l in lists {
+            let cj = || json!({"kind": "decode", "ranges": l});
+            let mut m = SetM::new();
+            for (a, b) in &l {
+                for k in *a..*b {
+                    m.insert((0, k));
+                }
+            }
+            // v1 wire form: #clients, client, #ranges, (clock, len)*
+            let mut bytes: Vec<u8> = vec![1, cid(0).get() as u8, l.len() as u8];
+            for (a, b) in &l {
+                bytes.push(*a as u8);
+                bytes.push((*b - *a) as u8);
+            }
+            let res = ctx.exec(&cj, |ctx| {
+                ctx.count("transitions", 1);
+                use yrs::updates::decoder::Decode;
+                use yrs::updates::encoder::Encode;
+                let s = IdSet::decode_v1(&bytes).map_err(|e| ("decode-error".to_string(), e.to_string()))?;
+                judge_set(&s, &m)?;
+                for v2 in [false, true] {
+                    let again = if v2 { IdSet::decode_v2(&s.encode_v2()) } else { IdSet::decode_v1(&s.encode_v1()) }.map_err(|e| ("reencoded-does-not-decode".to_string(), format!("v2={}: {}", v2, e)))?;
+                    if again != s {
+                        return Err(("reencoding-changes-set".to_string(), format!("v2={}: {:?} vs {:?}", v2, set_ranges(&again), set_ranges(&s))));
+                    }
+                }
+                Ok(())
+            });
+            if let Some(Err((class, msg))) = res {
+                ctx.violation("set-algebra", &format!("decode:{}", class), format!("IdSet::decode_v1 of ranges {:?}: {}", l, msg), cj());
+            }
+            ctx.state(hash_of(&("decode", &l)));
+        }
+    }
     // (b) all pairs of sets, 2 clients
     let sets = all_sets(n_pair, 2);
     ctx.count("set_values", if ctx.shard == 0 { sets.len() as u64 } else { 0 });
